@@ -1295,6 +1295,80 @@ func listReceiverWriters(c *Ctx) []string {
 	return out
 }
 
+var transitiveWritersMemo map[string]bool
+
+// fieldTypesOf: "pkg\ttype" of the named struct types held (by value or pointer) in the fields of
+// the struct type typ = "pkg\ttype" of the working tree: a write through such a field's method is a
+// write to memory reached from the holder.
+func fieldTypesOf(c *Ctx, typ string) map[string]bool {
+	out := map[string]bool{}
+	f := strings.Split(typ, "\t")
+	if len(f) != 2 {
+		return out
+	}
+	p := c.Pkgs[f[0]]
+	if p == nil || p.Types == nil {
+		return out
+	}
+	tn, _ := p.Types.Scope().Lookup(f[1]).(*types.TypeName)
+	if tn == nil {
+		return out
+	}
+	st, _ := tn.Type().Underlying().(*types.Struct)
+	if st == nil {
+		return out
+	}
+	for i := 0; i < st.NumFields(); i++ {
+		if n := namedOf(st.Field(i).Type()); n != nil && n.Obj().Pkg() != nil {
+			out[n.Obj().Pkg().Path()+"\t"+n.Obj().Name()] = true
+		}
+	}
+	return out
+}
+
+// transitiveWriters: the methods of the pinned tree that write to their receiver themselves or call,
+// on the same receiver type, a method that does (Load calls put, Close calls closeWithoutMutex, Has
+// calls the lazy writer()). Such a method is not a pure reader in the pinned tree either; when the
+// helper it called is folded into it, the write it always caused is merely seen in its own body.
+func transitiveWriters(c *Ctx) map[string]bool {
+	if transitiveWritersMemo != nil {
+		return transitiveWritersMemo
+	}
+	m := map[string]bool{}
+	for k := range baselineWriters {
+		m[k] = true
+	}
+	callee := func(k string) (string, string) { // declKey -> (callee spelling, "pkg\trecv")
+		f := strings.Split(k, "\t")
+		if len(f) != 3 || f[1] == "" {
+			return "", ""
+		}
+		return shortPkg(f[0]) + "." + f[1] + "." + f[2], f[0] + "\t" + f[1]
+	}
+	for changed := true; changed; {
+		changed = false
+		for k, callees := range baselineFingerprint {
+			if m[k] {
+				continue
+			}
+			_, typ := callee(k)
+			if typ == "" {
+				continue
+			}
+			for w := range m {
+				sp, wt := callee(w)
+				if (wt == typ || fieldTypesOf(c, typ)[wt]) && callees[sp] {
+					m[k] = true
+					changed = true
+					break
+				}
+			}
+		}
+	}
+	transitiveWritersMemo = m
+	return m
+}
+
 func ruleR08o(c *Ctx, r *Report) {
 	n := 0
 	var bad []string
@@ -1307,7 +1381,7 @@ func ruleR08o(c *Ctx, r *Report) {
 			continue // a method the pinned tree does not have: judged where it is called from
 		}
 		n++
-		if baselineWriters[k] {
+		if transitiveWriters(c)[k] {
 			continue
 		}
 		if w := receiverWrites(c, fn); w != "" {
